@@ -35,7 +35,7 @@ PickMetric == /\ stage = "metric"
               /\ stage' = "opts"
 PickOpts ==
     /\ stage = "opts"
-    /\ \E sym \in BOOLEAN, sq \in BOOLEAN, sp \in 1..2, thr \in {0, 1}, lf \in {"squared", "absolute"},
+    /\ \E sym \in BOOLEAN, sq \in BOOLEAN, sp \in 1..2, thr \in {0, 1, 2}, lf \in {"squared", "absolute"},
           rlf \in {"mae", "mse", "mdae"} :
           /\ (cfg.metric \notin Pct => sym)
           /\ (~HasSqrt(cfg.metric) => ~sq)
